@@ -16,7 +16,7 @@ from ..rules import ncallee, norm
 META = {
     "level": "other",
     "technique": "comparator truth table (store-raw guard), variant→algorithm dispatch tables compared between sibling functions, call-order comparison of multi-method stages, MIR must-pass-through, who-may-call on the limit validator",
-    "claim": "Decides the never-expands rule for all inputs (the only non-copy return is guarded by a strict shrink test that includes the method byte), dispatch symmetry for all eleven method variants, stage-order reversal for combined methods, result validation on every decoding path, and that the compressor cannot emit what the decompressor's default limits reject (it calls the same validator and stores raw otherwise). Does not decide inversion inside the codec kernels or ADPCM length/interleave. Also: the sparse decoder clamps every output growth to what is still owed; each ADPCM decode arm either emits a sample or gives its channel slot back; the PKWare compressor emits a mode the decoder accepts and the decoder rejects the unimplemented one. Wave 5: no io::Write::write / Read::read count goes unchecked in the codecs; the PKWare decode loop drains a pending window; pklib's encoder is only given blocks it can encode; decoders given a computed upper bound do not insist on the exact size. Wave 6: the compression module declares and references no interior-mutable static (codecs keep no state between calls). Wave 7: no decoder configures a private limit (memlimit / max_*) into the library decoder it calls.",
+    "claim": "Decides the never-expands rule for all inputs (the only non-copy return is guarded by a strict shrink test that includes the method byte), dispatch symmetry for all eleven method variants, stage-order reversal for combined methods, result validation on every decoding path, and that the compressor cannot emit what the decompressor's default limits reject (it calls the same validator and stores raw otherwise). Does not decide inversion inside the codec kernels or ADPCM length/interleave. Also: the sparse decoder clamps every output growth to what is still owed; each ADPCM decode arm either emits a sample or gives its channel slot back; the PKWare compressor emits a mode the decoder accepts and the decoder rejects the unimplemented one. Wave 5: no io::Write::write / Read::read count goes unchecked in the codecs; the PKWare decode loop drains a pending window; pklib's encoder is only given blocks it can encode; decoders given a computed upper bound do not insist on the exact size. Wave 6: the compression module declares and references no interior-mutable static (codecs keep no state between calls). Wave 7: no decoder configures a private limit (memlimit / max_*) into the library decoder it calls. Wave 8: the sparse codec's 4-byte length header decodes what the encoder writes (9 lengths covering every byte).",
     "note": "Trusted: the algorithm modules (zlib/bzip2/lzma/pklib wrappers) invert themselves; validate_decompression_operation is a pure function of (sizes, method, limits).",
     "assumptions": ["codec kernels are mutually inverse per module"],
     "explanation": "compression::compress::{compress, compress_internal, compress_multiple}, compression::decompress::{decompress_secure, decompress_with_monitor, decompress_multiple_internal}, security::validate_decompression_operation.",
